@@ -24,35 +24,35 @@ macro_rules! inv_range {
     };
 }
 
-//@ harness name=idea_inv_r0 prop=C09,C01,C20 tier=quick bits=12 est=185 desc="L: mul(k, mul_inv(k)) == 1 for all k with k>>12 == 0 (4096 arguments incl. 0 = 2^16 and 1); Euclid loop terminates within the unwinding bound without overflow / division by zero"
+//@ harness name=idea_inv_r0 prop=C09,C01,C20 tier=quick bits=12 est=160 desc="L: mul(k, mul_inv(k)) == 1 for all k with k>>12 == 0 (4096 arguments incl. 0 = 2^16 and 1); Euclid loop terminates within the unwinding bound without overflow / division by zero"
 inv_range!(idea_inv_r0, 0);
-//@ harness name=idea_inv_r1 prop=C09,C01,C20 tier=quick bits=12 est=195 desc="L: mul(k, mul_inv(k)) == 1 for all k with k>>12 == 1"
+//@ harness name=idea_inv_r1 prop=C09,C01,C20 tier=quick bits=12 est=175 desc="L: mul(k, mul_inv(k)) == 1 for all k with k>>12 == 1"
 inv_range!(idea_inv_r1, 1);
-//@ harness name=idea_inv_r2 prop=C09,C01,C20 tier=quick bits=12 est=190 desc="L: mul(k, mul_inv(k)) == 1 for all k with k>>12 == 2"
+//@ harness name=idea_inv_r2 prop=C09,C01,C20 tier=quick bits=12 est=175 desc="L: mul(k, mul_inv(k)) == 1 for all k with k>>12 == 2"
 inv_range!(idea_inv_r2, 2);
-//@ harness name=idea_inv_r3 prop=C09,C01,C20 tier=quick bits=12 est=175 desc="L: mul(k, mul_inv(k)) == 1 for all k with k>>12 == 3"
+//@ harness name=idea_inv_r3 prop=C09,C01,C20 tier=quick bits=12 est=165 desc="L: mul(k, mul_inv(k)) == 1 for all k with k>>12 == 3"
 inv_range!(idea_inv_r3, 3);
-//@ harness name=idea_inv_r4 prop=C09,C01,C20 tier=quick bits=12 est=195 desc="L: mul(k, mul_inv(k)) == 1 for all k with k>>12 == 4"
+//@ harness name=idea_inv_r4 prop=C09,C01,C20 tier=quick bits=12 est=185 desc="L: mul(k, mul_inv(k)) == 1 for all k with k>>12 == 4"
 inv_range!(idea_inv_r4, 4);
-//@ harness name=idea_inv_r5 prop=C09,C01,C20 tier=quick bits=12 est=160 desc="L: mul(k, mul_inv(k)) == 1 for all k with k>>12 == 5"
+//@ harness name=idea_inv_r5 prop=C09,C01,C20 tier=quick bits=12 est=155 desc="L: mul(k, mul_inv(k)) == 1 for all k with k>>12 == 5"
 inv_range!(idea_inv_r5, 5);
-//@ harness name=idea_inv_r6 prop=C09,C01,C20 tier=quick bits=12 est=195 desc="L: mul(k, mul_inv(k)) == 1 for all k with k>>12 == 6"
+//@ harness name=idea_inv_r6 prop=C09,C01,C20 tier=quick bits=12 est=175 desc="L: mul(k, mul_inv(k)) == 1 for all k with k>>12 == 6"
 inv_range!(idea_inv_r6, 6);
 //@ harness name=idea_inv_r7 prop=C09,C01,C20 tier=quick bits=12 est=160 desc="L: mul(k, mul_inv(k)) == 1 for all k with k>>12 == 7"
 inv_range!(idea_inv_r7, 7);
-//@ harness name=idea_inv_r8 prop=C09,C01,C20 tier=quick bits=12 est=215 desc="L: mul(k, mul_inv(k)) == 1 for all k with k>>12 == 8"
+//@ harness name=idea_inv_r8 prop=C09,C01,C20 tier=quick bits=12 est=195 desc="L: mul(k, mul_inv(k)) == 1 for all k with k>>12 == 8"
 inv_range!(idea_inv_r8, 8);
-//@ harness name=idea_inv_r9 prop=C09,C01,C20 tier=quick bits=12 est=220 desc="L: mul(k, mul_inv(k)) == 1 for all k with k>>12 == 9"
+//@ harness name=idea_inv_r9 prop=C09,C01,C20 tier=quick bits=12 est=200 desc="L: mul(k, mul_inv(k)) == 1 for all k with k>>12 == 9"
 inv_range!(idea_inv_r9, 9);
-//@ harness name=idea_inv_r10 prop=C09,C01,C20 tier=quick bits=12 est=210 desc="L: mul(k, mul_inv(k)) == 1 for all k with k>>12 == 10"
+//@ harness name=idea_inv_r10 prop=C09,C01,C20 tier=quick bits=12 est=185 desc="L: mul(k, mul_inv(k)) == 1 for all k with k>>12 == 10"
 inv_range!(idea_inv_r10, 10);
-//@ harness name=idea_inv_r11 prop=C09,C01,C20 tier=quick bits=12 est=215 desc="L: mul(k, mul_inv(k)) == 1 for all k with k>>12 == 11"
+//@ harness name=idea_inv_r11 prop=C09,C01,C20 tier=quick bits=12 est=190 desc="L: mul(k, mul_inv(k)) == 1 for all k with k>>12 == 11"
 inv_range!(idea_inv_r11, 11);
-//@ harness name=idea_inv_r12 prop=C09,C01,C20 tier=quick bits=12 est=205 desc="L: mul(k, mul_inv(k)) == 1 for all k with k>>12 == 12"
+//@ harness name=idea_inv_r12 prop=C09,C01,C20 tier=quick bits=12 est=185 desc="L: mul(k, mul_inv(k)) == 1 for all k with k>>12 == 12"
 inv_range!(idea_inv_r12, 12);
-//@ harness name=idea_inv_r13 prop=C09,C01,C20 tier=quick bits=12 est=195 desc="L: mul(k, mul_inv(k)) == 1 for all k with k>>12 == 13"
+//@ harness name=idea_inv_r13 prop=C09,C01,C20 tier=quick bits=12 est=180 desc="L: mul(k, mul_inv(k)) == 1 for all k with k>>12 == 13"
 inv_range!(idea_inv_r13, 13);
-//@ harness name=idea_inv_r14 prop=C09,C01,C20 tier=quick bits=12 est=165 desc="L: mul(k, mul_inv(k)) == 1 for all k with k>>12 == 14"
+//@ harness name=idea_inv_r14 prop=C09,C01,C20 tier=quick bits=12 est=150 desc="L: mul(k, mul_inv(k)) == 1 for all k with k>>12 == 14"
 inv_range!(idea_inv_r14, 14);
 //@ harness name=idea_inv_r15 prop=C09,C01,C20 tier=quick bits=12 est=145 desc="L: mul(k, mul_inv(k)) == 1 for all k with k>>12 == 15"
 inv_range!(idea_inv_r15, 15);
